@@ -175,11 +175,17 @@ pub struct ReadOpts {
     /// buffer size used by the raw BGZF driver's `read` loop (≥ 65536 takes the reader's
     /// direct-into-caller-buffer path)
     pub bgzf_buf: usize,
+    /// skip the calls that are listed known hangs (counted in `KNOWN_HANGS_EXCLUDED`); off in
+    /// single-mutant replays so that the known finding still reproduces
+    pub exclude_known_hangs: bool,
 }
+
+/// How often a listed known hang was avoided by a predicate on the input (C15 accounting).
+pub static KNOWN_HANGS_EXCLUDED: std::sync::atomic::AtomicU64 = std::sync::atomic::AtomicU64::new(0);
 
 impl Default for ReadOpts {
     fn default() -> Self {
-        ReadOpts { sweep: false, max_events: 200_000, vpos: true, bgzf_buf: 4093 }
+        ReadOpts { sweep: false, max_events: 200_000, vpos: true, bgzf_buf: 4093, exclude_known_hangs: false }
     }
 }
 
